@@ -59,11 +59,15 @@ def sym(E, p, kf):
             E.assume(z3.Not(z3.fpIsNaN(np._to_fp(d, np.dtype(fdt)))))       # rows containing NaN are outside the claim (numpy's own unique treats them specially)
     elif scan and op == "acc_bitwise_xor":
         data = [E.bv(f"d{q}", 64) for q in range(S)]
+    elif p.get("idt") and p.get("small"):
+        data = [E.int(f"d{q}", 0, DV) for q in range(S)]      # small magnitudes of a 64-bit type: the result must keep that type (any float type loses integers)
+    elif p.get("idt"):
+        data = [E.bv(f"d{q}", np.dtype(p["idt"]).itemsize * 8) for q in range(S)]      # genuine machine integers: the scan wraps, and keeps numpy's element type
     else:
         data = [E.int(f"d{q}", -DV, DV) for q in range(S)]
     if "KF-C07-1" in kf and op.startswith("acc_") and R:
         E.assume(z3.Or(lens[-1] > 0, S == 0))      # open known finding: trailing empty row
-    ddt = fdt or "int64"
+    ddt = fdt or p.get("idt") or "int64"
     ra = mk_ragged(RaggedArray, data, lens, ddt)
     got = outcome(lambda: (run_op(ra, p), ra))
     case = dict(p=p, lens=lens, data=data)
@@ -89,7 +93,16 @@ def sym(E, p, kf):
         if res["k"] != "ragged" or len(res["flat"]) != S or len(res["lens"]) != R:
             return dict(goal=False, got=got, case=case)
         conds += [specs.eqv(a, b) for a, b in zip(res["lens"], lens)]
+        wide = data
+        if p.get("idt"):
+            w = np.dtype(p["idt"]).itemsize * 8
+            if not p.get("small"):
+                wide = [d if w == 64 else (z3.ZeroExt(64 - w, d) if p["idt"].startswith("u") else z3.SignExt(64 - w, d)) for d in data]
+            # a 64-bit integer input keeps its type (every other type loses some of its values); for narrower inputs only the numbers are claimed
+            if w == 64 and res["dtype"] != p["idt"]:
+                return dict(goal=False, got=got, case=case)
         acc = None
+        data_, data = data, wide
         for q in range(S):
             is_start = z3.Or(*[z3.And(starts[r] == q, lens[r] > 0) for r in range(R)])
             if acc is None:
@@ -98,6 +111,7 @@ def sym(E, p, kf):
                 step = acc + data[q] if op in ("cumsum", "acc_add") else acc - data[q] if op == "acc_subtract" else acc ^ data[q]
                 acc = z3.If(is_start, data[q], step)
             conds.append(specs.eqv(res["flat"][q], acc))
+        data = data_
     elif op == "sort":
         if res["k"] != "ragged" or len(res["flat"]) != S or len(res["lens"]) != R:
             return dict(goal=False, got=got, case=case)
@@ -182,11 +196,20 @@ def conc(case):
             us = [sorted(set(x + 0.0 for x in r)) for r in frows]
             exp = dict(k="tuple", items=[pat(us), common.ref_ragged([[sum(1 for x in r if x == v) for v in u] for r, u in zip(frows, us)], "int64")])
         return got, dict(k="tuple", items=[exp, same]), {"float_eq": True}
+    idt = p.get("idt")
+    if idt and not idt.startswith("u"):
+        w = np.dtype(idt).itemsize * 8
+        data = [d - (1 << w) if d >= 1 << (w - 1) else d for d in data]
     rows = common.rows_of(data, lens)
-    ra = mk_ragged(RaggedArray, data, lens)
+    ra = mk_ragged(RaggedArray, data, lens, idt or "int64")
     got = outcome(lambda: (run_op(ra, p), ra))
-    same = common.ref_ragged(rows, "int64")
-    if scan:
+    same = common.ref_ragged(rows, idt or "int64")
+    if scan and idt:
+        wrap = (lambda v: v % (1 << 64)) if idt.startswith("u") else (lambda v: (v + (1 << 63)) % (1 << 64) - (1 << 63))
+        exp = common.ref_ragged([[wrap(v) for v in _scan(r, op)] for r in rows], "uint64" if idt.startswith("u") else "int64")
+        if np.dtype(idt).itemsize < 8:
+            return got, dict(k="tuple", items=[exp, same]), {"dtype_matters": False}
+    elif scan:
         exp = common.ref_ragged([_scan(r, op) for r in rows], "int64")
     elif op == "sort":
         exp = common.ref_ragged([sorted(r) for r in rows], "int64")
@@ -214,7 +237,63 @@ def jobs(tier, seed):
            dict(base, op="diff", n=1), dict(base, op="diff", n=1, via="np"), dict(base, op="diff", n=2), dict(base, op="diff", n=3, L=4)]
     for op in ("sort", "unique", "unique_counts"):
         out.append(dict(base, op=op, dtype="float16", R=2, L=3))
+    for idt in ("uint8", "int32", "int8"):
+        out.append(dict(base, op="cumsum", idt=idt, R=2 if q else 3, L=3))
+    out.append(dict(base, op="cumsum", idt="uint64", small=True))
+    out.append(dict(base, op="acc_add", idt="uint64", small=True))
+    if not q:
+        out.append(dict(base, op="cumsum", idt="uint64", R=2, L=2))      # full 64-bit range, wrapping
     return [dict(h="C07.rowwise", p=p) for p in out]
 
 
 harness("C07.rowwise", jobs, sym, conc)
+
+
+# ------------------------------------------------------------------ the same operations on a lazily selected operand (relational)
+def _view_ops():
+    return {"cumsum": lambda d: np.cumsum(d, axis=-1), "acc_add": lambda d: np.add.accumulate(d, axis=-1), "sort": lambda d: d.sort(axis=-1),
+            "unique_counts": lambda d: np.unique(d, axis=-1, return_counts=True), "diff": lambda d: np.diff(d, axis=-1), "diff2": lambda d: np.diff(d, n=2, axis=-1)}
+
+
+def sym_onview(E, p, kf):
+    import z3
+    from symx import specs
+    from . import programs
+    from npstructures import RaggedArray
+    R = E.concretize(E.int("R", 0, p["R"]))
+    lens = [E.int(f"l{r}", 0, p["L"]) for r in range(R)]
+    S = E.concretize(z3.Sum(lens) if lens else z3.IntVal(0))
+    data = [E.int(f"d{q}", -50, 50) for q in range(S)]
+    P = programs.ParamStore(E, B=2)
+    case = dict(p=p, lens=lens, data=data, params=P.values)
+    od, of, oa = programs.on_view(RaggedArray, lens, data, "int64", p["pre"], _view_ops()[p["op"]], P)
+    if od["k"] != of["k"]:
+        return dict(goal=False, got=od, case=case)
+    goal = specs.conj([specs.obs_goal(od, of) if od["k"] != "raise" else True, specs.obs_goal(oa, dict(k="ragged", flat=data, lens=lens, dtype="int64"))])
+    return dict(goal=goal, got=od, case=case)
+
+
+def conc_onview(case):
+    from . import programs
+    from npstructures import RaggedArray
+    p = case["p"]
+    P = programs.ParamStore(None, dict(case["params"]), B=2)
+    od, of, oa = programs.on_view(RaggedArray, case["lens"], case["data"], "int64", p["pre"], _view_ops()[p["op"]], P)
+    if od["k"] == "raise" and of["k"] == "raise":
+        of = common.refused()
+    return od, of, {"float_eq": True}
+
+
+def jobs_onview(tier, seed):
+    from . import programs
+    q = tier == "quick"
+    out = []
+    for op in _view_ops():
+        for pre in programs.VIEW_STEPS:
+            if q and pre in ("colstepm2", "colslice_a") and op not in ("sum0", "concat", "cumsum"):
+                continue
+            out.append(dict(R=3, L=2 if q else 3, pre=pre, op=op))
+    return [dict(h="C07.onview", p=p) for p in out]
+
+
+harness("C07.onview", jobs_onview, sym_onview, conc_onview)
